@@ -204,12 +204,40 @@ func WorkerMain(args []string) int {
 		}
 		jf.WriteString(fmt.Sprintf("B %d\n", idx))
 		done := make(chan Result, 1)
-		if p.Jitter && idx%3 == 2 {
+		jittered := p.Jitter && idx%3 == 2
+		if jittered {
 			verifhook.SetJitter(Mix(seed ^ uint64(idx)*0x9e3779b97f4a7c15))
+			verifhook.SetRecord(true)
 		} else if p.Jitter {
 			verifhook.SetJitter(0)
 		}
-		go func() { done <- p.Run(ctx, idx) }()
+		go func() {
+			r := p.Run(ctx, idx)
+			if jittered {
+				// what the hooks saw: stage hand-offs, and how many of them happened out of input order
+				ev := verifhook.Drain()
+				verifhook.SetRecord(false)
+				last := map[string]int{}
+				ooo := 0
+				nj := 0
+				for _, e := range ev {
+					if e.Kind != 'J' {
+						continue
+					}
+					nj++
+					if l, ok := last[e.Site]; ok && e.Idx < l {
+						ooo++
+					}
+					if e.Idx > last[e.Site] {
+						last[e.Site] = e.Idx
+					}
+				}
+				r.Count("jitter_cases", 1)
+				r.Count("jitter_handoffs_observed", nj)
+				r.Count("jitter_handoffs_out_of_input_order", ooo)
+			}
+			done <- r
+		}()
 		select {
 		case res := <-done:
 			b, _ := json.Marshal(res)
